@@ -3364,3 +3364,108 @@ func ruleIntegerNarrowingChecked(c *core.Ctx) {
 		}
 	}
 }
+
+// GC1: no state survives from one validation / generation to the next. `yardl generate --watch` validates and
+// generates many times in one process, and a package with `versions:` validates several models with the same names in
+// one run: a package-level map, slice or pointer that a function fills at run time (a memo of parsed manifests, of
+// schema strings, ...) answers the second question with the first one's result. Every package-level variable of the
+// module that a function other than init() assigns, index-assigns or appends to is an audited table entry.
+var auditedGlobals = map[string]string{
+	"pkg/packaging.cacheDir": "assigned by initCacheDir, which only init() calls: the location of the download cache, the same for every run of the process",
+}
+
+func ruleNoRunTimeGlobals(c *core.Ctx) {
+	const rule = "GC1"
+	c.Rule(rule, "no package-level variable of the module is written by a function at run time (assignment, element assignment, append, delete), audited entries excepted: nothing is remembered from one validation or generation to the next", 1)
+	n := 0
+	seen := map[string]bool{}
+	for _, d := range c.AllDecls() {
+		p := c.DeclPkg(d)
+		if p == nil || d.Body == nil || c.IsTestFile(d.Pos()) || !strings.HasPrefix(p.PkgPath, core.Mod) {
+			continue
+		}
+		if d.Name.Name == "init" && d.Recv == nil {
+			continue
+		}
+		info := p.TypesInfo
+		global := func(e ast.Expr) *types.Var {
+			for {
+				switch x := ast.Unparen(e).(type) {
+				case *ast.IndexExpr:
+					e = x.X
+					continue
+				case *ast.StarExpr:
+					e = x.X
+					continue
+				case *ast.SelectorExpr:
+					if v, ok := info.Uses[x.Sel].(*types.Var); ok && !v.IsField() && v.Pkg() != nil && v.Parent() == v.Pkg().Scope() && core.InModuleVar(v) {
+						return v
+					}
+					e = x.X
+					continue
+				case *ast.Ident:
+					if v, ok := info.Uses[x].(*types.Var); ok && v.Pkg() != nil && v.Parent() == v.Pkg().Scope() && core.InModuleVar(v) {
+						return v
+					}
+				}
+				return nil
+			}
+		}
+		report := func(v *types.Var, at token.Pos, how string) {
+			rel := strings.TrimPrefix(v.Pkg().Path(), core.Mod+"/")
+			name := rel + "." + v.Name()
+			key := name + "/written in " + c.FuncName(d)
+			if seen[key] {
+				return
+			}
+			seen[key] = true
+			n++
+			if r, ok := auditedGlobals[name]; ok {
+				c.OK(rule, key, at, "audited: "+r)
+				return
+			}
+			c.Bad(rule, key, at, fmt.Sprintf("package-level variable %s is %s at run time: what one validation / generation stored is seen by the next one in the same process (watch mode, a package with `versions:` whose models share names)", name, how))
+		}
+		ast.Inspect(d.Body, func(nn ast.Node) bool {
+			switch x := nn.(type) {
+			case *ast.AssignStmt:
+				for _, l := range x.Lhs {
+					if v := global(l); v != nil {
+						how := "assigned"
+						if _, isIx := ast.Unparen(l).(*ast.IndexExpr); isIx {
+							how = "given a new element"
+						}
+						report(v, x.Pos(), how)
+					}
+				}
+			case *ast.IncDecStmt:
+				if v := global(x.X); v != nil {
+					report(v, x.Pos(), "incremented")
+				}
+			case *ast.CallExpr:
+				if se, ok := ast.Unparen(x.Fun).(*ast.SelectorExpr); ok {
+					switch se.Sel.Name {
+					case "Store", "LoadOrStore", "Delete", "Swap", "CompareAndSwap", "LoadAndDelete":
+						if v := global(se.X); v != nil {
+							if nt := core.NamedOf(v.Type()); nt != nil && nt.Obj().Pkg() != nil && nt.Obj().Pkg().Path() == "sync" {
+								report(v, x.Pos(), "filled (sync."+nt.Obj().Name()+"."+se.Sel.Name+")")
+							}
+						}
+					}
+				}
+				if id, ok := ast.Unparen(x.Fun).(*ast.Ident); ok && id.Name == "delete" && len(x.Args) == 2 {
+					if _, isB := info.Uses[id].(*types.Builtin); isB {
+						if v := global(x.Args[0]); v != nil {
+							report(v, x.Pos(), "deleted from")
+						}
+					}
+				}
+			}
+			return true
+		})
+	}
+	if n == 0 {
+		// the rule is about the absence of such writes: keep a positive anchor so that it cannot pass on an empty load
+		c.OK(rule, "anchor/module functions scanned", 0, fmt.Sprintf("%d function declarations scanned", len(c.AllDecls())))
+	}
+}
